@@ -2,19 +2,126 @@
 """Regenerates MANIFEST.json from the table below (kept in one place so it stays valid)."""
 import json
 
+CORR = ("Tie to /repo: hand-written Gallina model, extracted (ExtrOcamlBasic only) and run against the real code on the "
+        "same generated cases on every run; a sample is re-evaluated inside Coq with vm_compute. ")
+TB = ("Trusted: Coq 8.16.1 kernel (coqc, vm_compute, no native_compute), extraction + ocaml/driver.ml, the Python harness. "
+      "No axioms (Print Assumptions: closed under the global context). ")
+
 CHECKS = {
+ "C01": dict(
+   text="Refinement proof: the MemoryFS model (fs/memoryfs.py + the fs/base.py defaults it uses) refines the reference "
+        "semantics FS/Ref.v (verdict, admissible error class, return value, resulting tree) for every well-formed state and "
+        "every argument, for all 23 calls that do not go through the directory walker plus movedir's fast path; "
+        "well-formedness is an invariant. " + CORR + "Every other backend/composition (OSFS, TempFS, SubFS, WrapFS, MountFS, "
+        "MultiFS, write-mode Zip/Tar) and the walker-based calls are compared with the reference step by step from the "
+        "backend's own pre-state (correspondence only).",
+   note=TB + "Modelled not verified: CPython str/OrderedDict semantics, the Linux kernel behind OSFS, archives' temp filesystems. "
+        "copydir/makedirs/movedir-merge, FTPFS: correspondence only (FTPFS not exercised).",
+   technique="Coq refinement proof (Mem model vs reference) + extracted-model/real-code differential on 13 backends",
+   ref="DESIGN.md §4 C01, §9"),
+ "C04": dict(
+   text="Table theorems re-checked by coqc on every run over the dispatch table dumped from the running code (class x public "
+        "method -> implementing class, with 'mutating' measured on a writable twin): no mutating method of the read-only "
+        "wrapper resolves to WrapFS's delegating implementation; the archive readers implement their essential mutators "
+        "themselves. Reflection sweep: every public FS method x synthesised arguments x 7 read-only constructions, then "
+        "write/writelines/truncate on returned handles, mutators on returned sub-filesystems, glob().remove(); the storage "
+        "underneath is snapshotted around each call.",
+   note=TB + "Arguments are synthesised from parameter names; behaviour of method bodies is exercised, not modelled.",
+   technique="Coq proof by computation over a regenerated dispatch table + reflection-driven snapshot differential",
+   ref="DESIGN.md §4 C04, §9"),
+ "C05": dict(
+   text="Theorems: the extracted predicate `preserved` (no unrelated file lost or changed; successful transfer delivered) holds "
+        "for the reference semantics and for the MemoryFS model for every well-formed tree and every argument pair of move, "
+        "copy, removetree and movedir onto a fresh destination (model tree = reference tree exactly). " + CORR +
+        "The same extracted predicate is applied to storage snapshots of 8 backends and of fs.move/fs.copy functions across "
+        "filesystem pairs; symlink scenarios on OSFS.",
+   note=TB + "Directory merges (copydir, movedir onto an existing directory, degenerate nestings) are covered by the "
+        "correspondence run only. OSFS runs against the real kernel.",
+   technique="Coq proof of the preservation predicate on reference+model; extracted predicate applied to real snapshots",
+   ref="DESIGN.md §4 C05, §9"),
+ "C06": dict(
+   text="Theorems on the MemoryFS model (calls in `covered`): the only non-fs.errors outcome is the documented ValueError for an "
+        "invalid mode; every error class is admissible for the reference in that state (its documented condition holds); a "
+        "failed call leaves the tree as it was. " + CORR + "Failure-biased histories on 13 backends: class admissible for the "
+        "reference in the backend's pre-state, str()/repr() render, snapshot unchanged for single-resource calls.",
+   note=TB + "Admissible classes are those of FS/Ref.v (DESIGN.md C01 error-precedence principle). errno translation of the real "
+        "kernel is exercised, not modelled.",
+   technique="Coq proof (corollaries of the refinement) + failing-call differential against the reference",
+   ref="DESIGN.md §4 C06, §9"),
+ "C10": dict(
+   text="Theorems on the MemoryFS model for every state and path: queries are pure; exists = isdir||isfile (never both); "
+        "listdir = names of scandir, each once; isempty iff listdir empty; getsize = len(readbytes) = info size; gettype/isdir/"
+        "isfile agree with getinfo; every scandir info equals getinfo(join(d, name)). Real backends (15 incl. read-only "
+        "archives): all queries on every resource after the calls of random histories are compared with each other.",
+   note=TB + "Info accessor conversions (times, permissions) and JSON-serialisability are stdlib-relative: checked on the "
+        "implementation only.",
+   technique="Coq proof on the model + mutual-consistency sweep on the implementation",
+   ref="DESIGN.md §4 C10, §9"),
+ "C11": dict(
+   text="Theorems: the reference depends on a path argument only through its resolved components (all 26 calls); in the MemoryFS "
+        "model two calls whose path arguments resolve alike are the same state transformer (function equality, every call except "
+        "makedirs). Real backends: each probe call is issued with >= 7 spellings of the same normal form from identical states; "
+        "outcome class and resulting tree must coincide.",
+   note=TB + "Linux '..' resolution behind OSFS is exercised, not modelled.",
+   technique="Coq proof (spelling-independence) + spelling-group differential on 9 backends",
+   ref="DESIGN.md §4 C11, §9"),
  "C12": dict(
    text="Coq theorems over all strings (list N): the fs.path model equals a component-list reference "
         "(normpath = component-wise resolution incl. exactly-when-it-raises, idempotence, clean components, "
         "split/join/combine/iteratepath/recursepath/parts inverses on normal forms, isbase/isparent/frombase/"
-        "issamedir/relativefrom as whole-component comparisons). The hand-written model is tied to /repo's "
-        "fs/path.py on every run by differential execution of the extracted model against the real functions "
-        "(exhaustive component sequences + random unicode strings) and the real functions are compared with "
-        "the reference on the laws' domain.",
-   note="Trusted: Coq kernel, extraction (ExtrOcamlBasic only) + ocaml/driver.ml, harness. Modelled not verified: "
-        "CPython str methods; the regex of _requires_normalization is modelled at component granularity.",
+        "issamedir/relativefrom as whole-component comparisons). " + CORR + "Exhaustive component sequences + random unicode "
+        "strings; the real functions are also compared with the reference on the laws' domain.",
+   note=TB + "Modelled not verified: CPython str methods; the regex of _requires_normalization is modelled at component granularity.",
    technique="Coq proof (induction over strings/component lists) + extracted-model correspondence",
    ref="DESIGN.md §4 C12"),
+ "C13": dict(
+   text="Theorems for every finite tree, every pair of per-entry predicates (any filter options), any max_depth and start path: "
+        "the explicit-stack depth-first loop terminates within its fuel and equals the recursive stream (children before their "
+        "directory); the breadth-first loop terminates; both report exactly the recursive listing (Permutation), hence the same "
+        "set; unfiltered walks list every file and directory. " + CORR + "Exact emitted sequences of walk/files/dirs/info on "
+        "MemoryFS, OSFS, SubFS, MountFS; all small trees + random trees x filter options.",
+   note=TB + "Name/glob filters follow Glob/ShellSpec.v; the backend's scandir order is taken from the backend.",
+   technique="Coq proof (stack/queue invariants) + exact-sequence correspondence",
+   ref="DESIGN.md §4 C13, §9"),
+ "C14": dict(
+   text="Theorems about the documented semantics (recursive component-wise matcher): '*', '?', classes never cross '/'; a "
+        "'**'-free pattern of k components matches only k-component paths; '**' matches any number of whole levels and only "
+        "whole levels; levels bound is sound (depth pruning loses no match); literal patterns match in full; the pattern cache is "
+        "bounded, keeps unique keys and never changes an answer. fs.wildcard/fs.glob/Globber from /repo are compared with the "
+        "extracted matcher on exhaustive small pattern x path spaces and on trees.",
+   note=TB + "fs/glob.py's regex translation and Python's re engine are NOT modelled: the implementation is compared with the "
+        "specification, three known deviations are recorded findings.",
+   technique="Coq proof about the specification matcher + exhaustive spec-vs-implementation differential",
+   ref="DESIGN.md §4 C14, §9"),
+ "C16": dict(
+   text="Refinement proof: for every initial content and every sequence of opens (any mode) and calls on any of several handles, "
+        "the _MemoryFile model (per-call seek on the shared BytesIO) gives the same results, positions and bytes as the reference "
+        "raw file; corollaries: append writes at the end, truncate keeps the position and resizes, handles without write (read) "
+        "permission reject. " + CORR + "Three-way: real _MemoryFile vs model, reference vs real io.FileIO, real handles of "
+        "MemoryFS/OSFS/SubFS/zip/tar members vs io.FileIO.",
+   note=TB + "BytesIO is modelled. Seeks to a negative target and zero-length append writes are outside the compared domain. "
+        "Text layer/buffering: CPython's io (see C02).",
+   technique="Coq refinement proof + three-way differential incl. real io.FileIO",
+   ref="DESIGN.md §4 C16, §9"),
+ "C17": dict(
+   text="Theorems: MountFS's string-prefix test on forcedir'ed keys is the whole-component prefix test; _delegate = first mount in "
+        "mount order whose point is a component prefix, path made relative ('/ab' never routed to '/a'); a mount inside an "
+        "existing mount is refused; MultiFS's iterate order is the members sorted by (priority, insertion index) descending "
+        "(permutation, sortedness, head characterisation), reads go to the first holder, listings are de-duplicated unions. " + CORR +
+        "Recording proxy members: call logs and member trees vs the extracted routing model.",
+   note=TB + "Member filesystems are MemoryFS behind recording WrapFS proxies; derived calls may touch every member their paths "
+        "route to.",
+   technique="Coq proof (prefix/sorting lemmas) + recording-proxy correspondence",
+   ref="DESIGN.md §4 C17, §9"),
+ "C18": dict(
+   text="Theorems on the close model: a checked method of a closed object raises FilesystemClosed at any nesting depth; a write-"
+        "mode archive is written exactly once whatever the number of close() calls (and the failing-write behaviour is stated as "
+        "found); members closed iff auto_close; table theorem on the regenerated dispatch table (check() is the base class's "
+        "everywhere). Reflection sweep: every public data/metadata method after close (explicit, double, with-block) on 13 "
+        "constructions with storage snapshots; finaliser probes (archives, TempFS, gc).",
+   note=TB + "Which methods call check() is exercised by reflection, not proved; gc-driven close is exercised only.",
+   technique="Coq proof on the close model + reflection-driven differential",
+   ref="DESIGN.md §4 C18, §9"),
 }
 
 def main():
@@ -31,7 +138,7 @@ def main():
             level_claimed=dict(category="proof", text=c["text"], design_ref=c["ref"]),
             level_note=c["note"], technique=c["technique"]))
     all_ids = ["C%02d" % i for i in range(1, 21)]
-    na = [dict(property_id=p, reason="not built yet (work in progress; see DESIGN.md §6 build order)")
+    na = [dict(property_id=p, reason="check being built in this session (DESIGN.md §6); not yet registered")
           for p in all_ids if p not in CHECKS]
     m = dict(
         version=1,
